@@ -23,7 +23,10 @@ section); the model is tied to the code per run (static phase against the real
 `MakePipelineCallGraph`, run-time phase against the real resolver's delivered
 arguments), and for the shapes outside the proved fragment the refinement is
 still established per run by trace checking (harness/c01.go ↔ Driver/C01.lean
-`C01.check`).
+`C01.check`).  Later sections extend the proved fragment: map calls of stages over literals,
+sizes known after resolution, mapped pipelines and nested map calls, run-time `disabled` controls
+(modulo the rendering of `dnull`, `J.approx`), array-mode map calls of run-time size (given the
+recorded index sets).
 -/
 import Martian.Dataflow
 import Martian.Resolver
@@ -709,9 +712,6 @@ everything else equal.  `≈` is a congruence for the value operations downstrea
 call, it is equality on values without `dnull`, and the model of the code renders `dnull` as JSON
 null (`J.erase`). -/
 
-/-- `dnull ≈ o` iff `o` is null, or a collection of such values (in particular an empty one). -/
-theorem approx_dnull_iff (o : J) : J.approx .dnull o = o.nullish := Proofs.Approx.approx_dnull o
-
 example : J.approx .dnull .null = true ∧ J.approx .dnull (.arr []) = true ∧ J.approx .dnull (.obj []) = true ∧
     J.approx .dnull (.arr [.null, .null]) = true ∧ J.approx .dnull (.obj [("a", .null)]) = true ∧
     J.approx .dnull (.atom "0") = false ∧ J.approx .dnull (.arr [.atom "0"]) = false ∧
@@ -1037,6 +1037,10 @@ The theorems of this section restate one branch of a definition of the model (`e
 They document how the specification reads; the manifest does not cite them as guarantees about
 the code (audit C01 M-3 / M-4).
 -/
+
+/-- `dnull ≈ o` iff `o` is null, or a collection of such values (in particular an empty one): the
+first clause of the definition of `J.approx`. -/
+theorem approx_dnull_iff (o : J) : J.approx .dnull o = o.nullish := Proofs.Approx.approx_dnull o
 
 /-- The run-time formulation of projection (`LazyArgumentMap.Path` / `resolvePath`:
 descend the value element by element) computes the specification's projection. -/
